@@ -60,6 +60,7 @@ UNITS = {
     'LINKEXCH': dict(template='linkexch.rs', rlimit=30),
     'RESUMESPLIT': dict(template='resumesplit.rs', rlimit=30),
     'ENUMCODES': dict(template='enumcodes.rs', rlimit=30),
+    'SETTERS': dict(template='setters.rs', rlimit=30),
 }
 
 VARW = 'PROVED for every value (units SERSTR + READERS): strings, symbols and binaries of ANY length and content, outside and inside arrays -- the serializer writes a valid str8/str32, sym8/sym32, vbin8/vbin32 encoding whose size field counts octets ([C05.*.encoding], [C05.*.array-element]); the decoder reads both width variants by the AMQP layout and accepts every one of them from a reliable reader ([C05.*.decoding], [C05.*.every-variant-accepted]); lemma_var_round_trip joins the two: decode(encode(x) ++ rest) == x, consuming exactly the encoding; serialized_size agrees with the octets written ([C20.size.*]); compound headers are decoded to the body length and count the layout defines ([C05.compound.header-decoding])'
@@ -114,7 +115,7 @@ ENGINE = 'that the tokio engine tasks (select! loops, mpsc channels) call these 
 PROPS = {
     'C02': dict(
         probes=[dict(name='cci_session_agreement', kind='agreement', target='fe2o3_amqp::session::consecutive_chunk_indices', args=['C02.cci-session'], claim='session::consecutive_chunk_indices (iterator adapters; enters unit SESSION as an assumed contract) agrees with its oracle: a new run starts exactly where the next id is not the previous + 1', bound='every ascending sequence of <= 6 ids over {0,1,2,3,5,6,2^32-2,2^32-1} (3003 sequences), real function through the verif-hooks facade'), dict(name='cci_receiver_agreement', kind='agreement', target='fe2o3_amqp::link::receiver_link::consecutive_chunk_indices', args=['C02.cci-receiver'], claim='receiver_link::consecutive_chunk_indices agrees with its oracle: a new run starts exactly where the id is not consecutive OR the per-delivery rcv-settle-mode changes', bound='every ascending sequence of <= 6 ids over 8 values x every assignment of {unset, first, second} (1.47 M cases), real function through the verif-hooks facade')],
-        units=['SESSION', 'SENDSPLIT', 'LINK', 'LINKATTACH', 'RESUME', 'DISPOSER', 'DELIVFUT', 'RECVAPI', 'WIRING', 'ACCLINK', 'LINKAPI', 'ACCDELEG', 'TXNDELEG', 'SENDINNER', 'WIRELAYOUT', 'RESUMESPLIT', 'ENUMCODES'], kani=[], level='proof', title='Settlement',
+        units=['SESSION', 'SENDSPLIT', 'LINK', 'LINKATTACH', 'RESUME', 'DISPOSER', 'DELIVFUT', 'RECVAPI', 'WIRING', 'ACCLINK', 'LINKAPI', 'ACCDELEG', 'TXNDELEG', 'SENDINNER', 'WIRELAYOUT', 'RESUMESPLIT', 'ENUMCODES', 'SETTERS'], kani=[], level='proof', title='Settlement',
         assumptions=[ASYNC, ENGINE,
             'session::consecutive_chunk_indices and util::is_consecutive are under contract in unit SESSION (rule R34: the windows(2).enumerate().filter_map(..).collect() chain is written as the loop the std adapters perform, closure body verbatim); the agreement probe cci_session_agreement still runs the real function against an independent oracle (bounded)',
             'ReceiverLink::dispose_all (batch disposal: sort, drop what is no longer unsettled, one disposition per maximal run) and receiver_link::consecutive_chunk_indices are under contract in unit LINK (rule R34; `sort_by_key` / `retain` are stand-ins taking the closures as the code has them); the agreement probe cci_receiver_agreement still runs the real run splitter against an independent oracle (bounded)',
@@ -195,7 +196,7 @@ PROPS = {
             'PLAIN does not check that init.mechanism == PLAIN and ignores fields after the third NUL (observed, not part of the property)']),
     'C06': dict(
         probes=[COMPOSITE_VARIANTS],
-        units=['FRAMEENC', 'FRAMEDEC', 'CONNENG', 'TRANSPORT', 'HDRCODEC', 'SASLNEG', 'HEADERS', 'READERS', 'BUILDER', 'WIRELAYOUT', 'SERHDR', 'ENUMCODES'], kani=[], level='proof', title='Frames on the wire',
+        units=['FRAMEENC', 'FRAMEDEC', 'CONNENG', 'TRANSPORT', 'HDRCODEC', 'SASLNEG', 'HEADERS', 'READERS', 'BUILDER', 'WIRELAYOUT', 'SERHDR', 'ENUMCODES', 'SETTERS'], kani=[], level='proof', title='Frames on the wire',
         lemmas={'HDRCODEC': ['lemma_header_round_trip'], 'FRAMEENC': ['lemma_expected_properties', 'lemma_cut_points', 'lemma_mids_payload', 'lemma_mids_sizes', 'lemma_flatten_append', 'lemma_payloads_append']},
         assumptions=[
             'precondition fits(): the transfer performative alone (in each of its three forms) is smaller than the frame body; a larger one is outside the contract (usize underflow / no progress)',
@@ -204,13 +205,13 @@ PROPS = {
             'a NON-transfer performative whose encoding exceeds the frame is refused with FramingError since fix 542518b ([C06.transport.non-transfer-whole]); nothing establishes that the engines handle that error gracefully (the connection engine treats it as a transport error)',
             'decoding under arbitrary read fragmentation is tokio_util LengthDelimitedCodec + FramedRead (third party), not verified']),
     'C01': dict(
-        units=['FRAMEENC', 'SESSION', 'SENDSPLIT', 'LINK', 'REASM', 'SESSENG', 'CONNENG', 'RESUME', 'BYTEREADER', 'WIRING', 'ACCLINK', 'LINKAPI', 'READERS', 'ACCDELEG', 'TXNDELEG', 'SENDINNER', 'SESSWIRING', 'LINKFLOW', 'CONNWIRING', 'WIRELAYOUT', 'SERHDR', 'RESUMESPLIT', 'ENUMCODES'],
+        units=['FRAMEENC', 'SESSION', 'SENDSPLIT', 'LINK', 'REASM', 'SESSENG', 'CONNENG', 'RESUME', 'BYTEREADER', 'WIRING', 'ACCLINK', 'LINKAPI', 'READERS', 'ACCDELEG', 'TXNDELEG', 'SENDINNER', 'SESSWIRING', 'LINKFLOW', 'CONNWIRING', 'WIRELAYOUT', 'SERHDR', 'RESUMESPLIT', 'ENUMCODES', 'SETTERS'],
         lemmas={'SENDSPLIT': ['lemma_link_expected', 'lemma_link_mids'], 'FRAMEENC': ['lemma_expected_properties', 'lemma_mids_payload']}, kani=[], level='proof', title='End-to-end delivery (sequential stages only)',
         assumptions=[ASYNC, ENGINE,
             'only the sequential stages are under contract: session hold-back/stamping (SESSION) and frame splitting (FRAMEENC); link-level split, reassembly and the codec round trip are separate units where built',
             'mpsc hand-offs, engine select! loops, credit/window liveness under scheduling, and all configurations x schedules are NOT decided']),
     'C08': dict(
-        units=['LINKFLOW', 'SENDSPLIT', 'PRODUCER', 'ACCSESS', 'SESSION', 'WIRING', 'ACCLINK', 'LINK', 'TXNDELEG', 'WIRELAYOUT'], kani=[], level='proof', title='Sender link credit',
+        units=['LINKFLOW', 'SENDSPLIT', 'PRODUCER', 'ACCSESS', 'SESSION', 'WIRING', 'ACCLINK', 'LINK', 'TXNDELEG', 'WIRELAYOUT', 'SETTERS'], kani=[], level='proof', title='Sender link credit',
         lemmas={'LINKFLOW': ['lemma_c08_consume_preserves_limit', 'lemma_c08_flow_establishes_limit']},
         assumptions=[ASYNC,
             'NOT DECIDED: "a send waiting for credit completes however the grant races with the wait" (notified().await vs notify_waiters is a two-task schedule property; no thread model in either verifier)',
@@ -218,7 +219,7 @@ PROPS = {
             'SenderLink::send_payload is under contract in unit SENDSPLIT with get_delivery_tag_or_detached (the tokio::select! between consume(1) and the detach notification) as a stand-in: one credit per delivery, no transfer without a credit',
             'TryConsume::try_consume (transaction feature) duplicates consume_link_credit and is not under contract']),
     'C09': dict(
-        units=['LINKFLOW', 'SESSION', 'LINK', 'LINKATTACH', 'REASM', 'DISPOSER', 'WIRING', 'ACCLINK', 'LINKAPI', 'ACCDELEG', 'TXNDELEG', 'WIRELAYOUT', 'TXNCOORD'], kani=[], level='proof', title='Receiver link credit',
+        units=['LINKFLOW', 'SESSION', 'LINK', 'LINKATTACH', 'REASM', 'DISPOSER', 'WIRING', 'ACCLINK', 'LINKAPI', 'ACCDELEG', 'TXNDELEG', 'WIRELAYOUT', 'TXNCOORD', 'SETTERS'], kani=[], level='proof', title='Receiver link credit',
         lemmas={'LINKFLOW': ['lemma_c09_threshold_reached_within_credit']},
         assumptions=[ASYNC,
             'parking_lot::RwLock and Arc<AtomicU32> erased: disposal concurrent with recv from another task is not modelled',
@@ -233,7 +234,7 @@ PROPS = {
             'header-before-open (transport protocol-header exchange), a peer close always being answered, handle results, EOF handling and flushing of queued frames are liveness/glue and are NOT decided',
             'ConnectionEngine::{on_incoming,on_outgoing_session_frames,on_heartbeat,forward_to_session} are under contract (unit CONNENG) against a stand-in connection endpoint carrying the CONN contracts; close_connection / wait_for_remote_close / on_control / on_error / event_loop (select!) are not']),
     'C17': dict(
-        units=['CONN', 'CONNENG', 'FRAMEDEC', 'BUILDER', 'TRANSPORT', 'TIMERS', 'LCONNDELEG', 'WIRELAYOUT', 'ENUMCODES'], kani=[], level='proof', title='Negotiated limits (channel-max; idle time-out bookkeeping)',
+        units=['CONN', 'CONNENG', 'FRAMEDEC', 'BUILDER', 'TRANSPORT', 'TIMERS', 'LCONNDELEG', 'WIRELAYOUT', 'ENUMCODES', 'SETTERS'], kani=[], level='proof', title='Negotiated limits (channel-max; idle time-out bookkeeping)',
         assumptions=[
             'DECIDED: channel-max; the VALUES the timers are armed with (heartbeat period from the peer\'s idle-time-out, 0/unset => none; local deadline = configured idle-time-out, advertised value = half of it); one empty frame per heartbeat tick; none after the local Close. the local idle timer is restarted by every incoming item and by nothing the local side sends, and an elapsed timer is reported as IdleTimeoutElapsed (Transport::poll_next / start_send, unit TRANSPORT; the timer is a stand-in with a restart counter and an elapsed flag). NOT DECIDED: the timed behaviour itself (tokio Interval/Sleep): no clock in either verifier',
             'slab::Slab modelled as a partial map whose vacant key is unoccupied']),
@@ -256,14 +257,14 @@ PROPS = {
             'controller side (unit TXNCTRL): declare_on_link, discharge_on_link, send_on_control_link, Transaction::discharge, OwnedTransaction::discharge, post_inner, TransactionRetirement::retire, DeliveryState::{accepted_or_else, declared_or_else} are under contract with the control link / sender / receiver as ghost-trace stand-ins and the Mutex around the control link erased; post_ref_inner and acquisition are not; the rollback-on-drop path is under contract in unit TXNDROP (rollback_on_drop, OwnedTransaction::drop; Transaction::drop uses `break` with a value and is not)',
             'the coordinator (unit TXNCOORD): on_declare, on_discharge, reject, handle_delivery_result under contract with the session requests and the receiver link as ghost-trace stand-ins', 'NOT DECIDED: the coordinator event loop (select!), abort of the remaining ids on Drop / when the controlling link goes away, several concurrent control links, freshness of a transaction id over the whole history (only among live ids)']),
     'C11': dict(
-        units=['SESSION', 'FRAMEENC', 'CONN', 'SENDSPLIT', 'CONNENG', 'ACCSESS', 'LINKATTACH', 'LINK', 'WIRING', 'ACCLINK', 'ACCDELEG', 'TXNDELEG', 'LCONNDELEG', 'SESSWIRING', 'SESSENG', 'TXN', 'CONNWIRING', 'CONVERSIONS', 'WIRELAYOUT', 'ENUMCODES'],
+        units=['SESSION', 'FRAMEENC', 'CONN', 'SENDSPLIT', 'CONNENG', 'ACCSESS', 'LINKATTACH', 'LINK', 'WIRING', 'ACCLINK', 'ACCDELEG', 'TXNDELEG', 'LCONNDELEG', 'SESSWIRING', 'SESSENG', 'TXN', 'CONNWIRING', 'CONVERSIONS', 'WIRELAYOUT', 'ENUMCODES', 'SETTERS'],
         lemmas={'SENDSPLIT': ['lemma_link_expected'], 'FRAMEENC': ['lemma_expected_properties']}, kani=[], level='proof', title='Identifiers',
         assumptions=[ASYNC, ENGINE,
             'fewer than 2^32 link handles are live in one session (handle = slab key as u32)',
             'slab::Slab is modelled as a partial map whose vacant key is unoccupied (trusted stand-in)',
             'concurrent attaches are serialised by the session engine (not verified)']),
     'C13': dict(
-        units=['SESSION', 'LINK', 'SESSENG', 'LINKDETACH', 'SENDSPLIT', 'RECVLOOP', 'LINKATTACH', 'LINKFLOW', 'ACCSESS', 'HANDLES', 'WIRING', 'ACCLINK', 'LINKAPI', 'CONN', 'ACCDELEG', 'TXNDELEG', 'LCONNDELEG', 'SESSWIRING', 'CONNWIRING', 'CONVERSIONS', 'WIRELAYOUT', 'ERRCOND', 'LINKEXCH'],
+        units=['SESSION', 'LINK', 'SESSENG', 'LINKDETACH', 'SENDSPLIT', 'RECVLOOP', 'LINKATTACH', 'LINKFLOW', 'ACCSESS', 'HANDLES', 'WIRING', 'ACCLINK', 'LINKAPI', 'CONN', 'ACCDELEG', 'TXNDELEG', 'LCONNDELEG', 'SESSWIRING', 'CONNWIRING', 'CONVERSIONS', 'WIRELAYOUT', 'ERRCOND', 'LINKEXCH', 'SETTERS'],
         lemmas={'SESSENG': ['lemma_ext_trans']}, kani=[], level='proof', title='Session and link lifecycles',
         assumptions=[ASYNC, ENGINE,
             '"returns only after the peer\'s answer" is decided as a safety clause (detach / close / end_session / wait_for_remote_end return Ok only once the peer\'s detach / End has been taken from the incoming channel; units LINKDETACH, SESSENG); "answered no later than the next operation" and "within bounded time" are liveness statements and are not decided',
@@ -284,12 +285,12 @@ PROPS = {
             'NOT DECIDED: what a dropped future does inside library futures; the Detach arm of recv_inner and Sender::send\'s wait for the outcome; starvation dynamics under repeated cancellation beyond the per-call credit leak; duplicates (none possible in the functions under contract: a frame leaves the channel once)',
             ASYNC]),
     'C15': dict(
-        units=['SESSION', 'CONN', 'FRAMEDEC', 'LINK', 'CONNENG', 'TRANSPORT', 'SEQACCESS', 'ACCSESS', 'LINKATTACH', 'FRAMEENC', 'SASLMECH', 'SESSENG', 'READERS', 'TIMERS', 'TXN', 'BYTEREADER', 'REASM', 'RESUMESPLIT'], kani=[], level='proof', title='Misbehaving peer',
+        units=['SESSION', 'CONN', 'FRAMEDEC', 'LINK', 'CONNENG', 'TRANSPORT', 'SEQACCESS', 'ACCSESS', 'LINKATTACH', 'FRAMEENC', 'SASLMECH', 'SESSENG', 'READERS', 'TIMERS', 'TXN', 'BYTEREADER', 'REASM', 'RESUMESPLIT', 'SETTERS'], kani=[], level='proof', title='Misbehaving peer',
         assumptions=[ASYNC, ENGINE,
             'never-blocks-forever and isolation between connections are not decided',
             'handlers of peer input carry no precondition on the peer-controlled arguments']),
     'C07': dict(
-        units=['SESSION', 'SESSENG', 'ACCSESS', 'TXN', 'ACCDELEG', 'TXNDELEG', 'SESSWIRING', 'WIRELAYOUT'], kani=[], level='proof',
+        units=['SESSION', 'SESSENG', 'ACCSESS', 'TXN', 'ACCDELEG', 'TXNDELEG', 'SESSWIRING', 'WIRELAYOUT', 'SETTERS'], kani=[], level='proof',
         title='Session flow control',
         assumptions=[
             'the session engine calls these functions in the order frames arrive/are queued (select! loop not verified)',
